@@ -824,6 +824,21 @@ func ruleMGetSort(p *Prog, r *Result) {
 					}
 					if lv := lenOf(st2.Val); lv != nil {
 						r.add(lv == st.Val, key+"|len|"+fname, p.InstrPos(st2), "a length stored next to Keys ("+fname+") is the length of the list stored into Keys (the plans index Keys up to it)")
+						// ... and stays it: the number of keys to look up is not the number of rows a consumer wants
+						// (an absent or filtered key yields no row), so nothing shortens it later
+						other := ""
+						for _, g := range p.Funcs {
+							allInstrs(g, func(in3 ssa.Instruction) {
+								st3, ok := in3.(*ssa.Store)
+								if !ok || st3 == st2 {
+									return
+								}
+								if o3, f3, _, ok := fieldOfAddr(st3.Addr); ok && o3 != nil && o3.Obj().Name() == "MultiGetPlan" && f3 == fname {
+									other = p.FName(g) + " at " + p.InstrPos(st3)
+								}
+							})
+						}
+						r.add(other == "", key+"|len|"+fname+"|only-at-construction", p.InstrPos(st2), firstNonEmpty(map[bool]string{true: fname + " is rewritten by " + other}[other != ""], fname+" is written only where the plan is built"))
 					}
 				}
 			}
